@@ -427,6 +427,22 @@ class CParser:
 
         return declarations
 
+    def _add_parameters_to_scope(self, decl: c_ast.Node) -> None:
+        # Called when the '{' of a function body has just been peeked (the
+        # lexer has opened the body's scope): enter the function's parameters
+        # in that scope. They are the parameters of the function declarator
+        # applied directly to the declared name, i.e. the outermost FuncDecl
+        # of the declarator - for 'int (*f(int a))(int b)' that is '(int a)',
+        # for 'int (f(int a))' there are parentheses between it and the '{'.
+        if not isinstance(decl, c_ast.FuncDecl) or decl.args is None:
+            return
+        for param in decl.args.params:
+            if isinstance(param, c_ast.EllipsisParam):
+                break
+            name = getattr(param, "name", None)
+            if name:
+                self._add_identifier(name, param.coord)
+
     def _build_function_definition(
         self,
         spec: "_DeclSpec",
@@ -682,6 +698,7 @@ class CParser:
             param_decls = None
             if self._peek_type() != "LBRACE":
                 self._parse_error("Invalid function definition", decl.coord)
+            self._add_parameters_to_scope(decl)
             spec: _DeclSpec = dict(
                 qual=[],
                 alignment=[],
@@ -716,6 +733,7 @@ class CParser:
                 param_decls = self._parse_declaration_list()
             if self._peek_type() != "LBRACE":
                 self._parse_error("Invalid function definition", decl.coord)
+            self._add_parameters_to_scope(decl)
             if not spec["type"]:
                 spec["type"] = [c_ast.IdentifierType(["int"], coord=spec_coord)]
             func = self._build_function_definition(
@@ -1386,18 +1404,7 @@ class CParser:
             )
             self._expect("RPAREN")
 
-        func = c_ast.FuncDecl(args=args, type=None, coord=base_decl.coord)
-
-        if self._peek_type() == "LBRACE":
-            if func.args is not None:
-                for param in func.args.params:
-                    if isinstance(param, c_ast.EllipsisParam):
-                        break
-                    name = getattr(param, "name", None)
-                    if name:
-                        self._add_identifier(name, param.coord)
-
-        return func
+        return c_ast.FuncDecl(args=args, type=None, coord=base_decl.coord)
 
     # BNF: pointer : '*' type_qualifier_list? pointer?
     def _parse_pointer(self) -> Optional[c_ast.Node]:
